@@ -41,8 +41,12 @@ impl<T: ?Sized> Mutex<T> {
         loop {
             k.yield_point(me, || format!("mutex#{res}.lock"), &[0x10, res]);
             match self.inner.try_lock() {
-                Ok(g) => return Ok(MutexGuard { g: Some(g), res }),
+                Ok(g) => {
+                    k.with_hb(|h| h.on_lock(me, res));
+                    return Ok(MutexGuard { g: Some(g), res });
+                }
                 Err(TryLockError::Poisoned(p)) => {
+                    k.with_hb(|h| h.on_lock(me, res));
                     return Err(PoisonError::new(MutexGuard { g: Some(p.into_inner()), res }));
                 }
                 Err(TryLockError::WouldBlock) => {
@@ -63,8 +67,16 @@ impl<T: ?Sized> Mutex<T> {
         let res = kernel::object_id(&self.id);
         kernel::yield_now_with(|| format!("mutex#{res}.try_lock"), &[0x11, res]);
         match self.inner.try_lock() {
-            Ok(g) => Ok(MutexGuard { g: Some(g), res }),
+            Ok(g) => {
+                if let Some((k, me)) = kernel::current() {
+                    k.with_hb(|h| h.on_lock(me, res));
+                }
+                Ok(MutexGuard { g: Some(g), res })
+            }
             Err(TryLockError::Poisoned(p)) => {
+                if let Some((k, me)) = kernel::current() {
+                    k.with_hb(|h| h.on_lock(me, res));
+                }
                 Err(TryLockError::Poisoned(PoisonError::new(MutexGuard { g: Some(p.into_inner()), res })))
             }
             Err(TryLockError::WouldBlock) => Err(TryLockError::WouldBlock),
@@ -119,6 +131,7 @@ impl<T: ?Sized> Drop for MutexGuard<'_, T> {
             if let Some((k, me)) = kernel::current() {
                 k.wake(self.res);
                 let res = self.res;
+                k.with_hb(|h| h.on_unlock(me, res));
                 k.event(me, || format!("mutex#{res}.unlock"), &[0x12, res]);
             }
         }
@@ -133,7 +146,16 @@ impl<T: ?Sized + std::fmt::Debug> std::fmt::Debug for MutexGuard<'_, T> {
 
 pub mod atomic {
     use crate::kernel;
-    pub use std::sync::atomic::{fence, Ordering};
+    pub use std::sync::atomic::Ordering;
+
+    /// `std::sync::atomic::fence` as a scheduling point that the happens-before tracker sees.
+    pub fn fence(o: Ordering) {
+        kernel::yield_now_with(|| format!("fence({o:?})"), &[0x2F, ord_code(o)]);
+        std::sync::atomic::fence(o);
+        if let Some((k, me)) = kernel::current() {
+            k.with_hb(|h| h.on_fence(me, o));
+        }
+    }
     use std::sync::atomic::AtomicU64 as StdAtomicU64;
 
     fn ord_code(o: Ordering) -> u64 {
@@ -195,6 +217,9 @@ pub mod atomic {
                     let id = self.pre("cas", 3, s);
                     let r = self.inner.compare_exchange(cur, new, s, f);
                     if let Some((k, me)) = kernel::current() {
+                        if r.is_err() {
+                            k.note_cas_failure(me);
+                        }
                         k.with_hb(|h| match r {
                             Ok(_) => h.on_rmw(me, id, s),
                             Err(_) => h.on_cas_fail(me, id, f),
